@@ -682,6 +682,10 @@ class Evaluator:
                 if b is TNone:
                     c = self.is_none(a)
                     return c if isinstance(op, ast.Eq) else c_not(c)
+                if isinstance(a, tuple) and a and a[0] == 'len' and isinstance(b, tuple) and b and b[0] == 'len':
+                    same = self._same_length(a[1], b[1])
+                    if same is not None:
+                        return TRUE if same == isinstance(op, (ast.Eq, ast.Is)) else FALSE
                 ka, kb = self.cond_leaf(a), self.cond_leaf(b)
                 if isinstance(a, (TConst, TEnum)) and isinstance(b, (TConst, TEnum)):
                     same = repr(a) == repr(b)
@@ -690,11 +694,58 @@ class Evaluator:
                     return TRUE if (a.const() == b.const()) == isinstance(op, ast.Eq) else FALSE
                 return Cond('eq' if isinstance(op, (ast.Eq, ast.Is)) else 'ne', (ka, kb))
             if isinstance(op, (ast.In, ast.NotIn)):
+                member = self._element_of(a, b)
+                if member:
+                    return TRUE if isinstance(op, ast.In) else FALSE
                 c = Cond('in', (self.cond_leaf(a), self.cond_leaf(b)))
                 return c if isinstance(op, ast.In) else c_not(c)
             return Cond('opaque', (ast.unparse(e)[:60],))
         v = self.eval(e, env, fn, depth)
         return self.truthy(v)
+
+    def _same_length(self, x: Any, y: Any) -> Optional[bool]:
+        """True when the two list values certainly have the same number of elements (the same unfiltered repetitions and the
+        same number of plain items); None when not known."""
+        def shape(v):
+            if not isinstance(v, TList):
+                return None
+            out = []
+            for it in v.items:
+                if isinstance(it, RepL):
+                    if it.src.order.startswith('partial') or any(isinstance(z, (RepL, AltL)) for z in it.items):
+                        return None
+                    out.append(('rep', repr(it.src.base), tuple(sorted(repr(self.subst_cond(f, it.src.var, Sym('_v'))) for f in it.src.filters)),
+                                len(it.items)))
+                elif isinstance(it, AltL):
+                    return None
+                else:
+                    out.append(('one',))
+            return sorted(out)
+        a, b = shape(x), shape(y)
+        if a is None or b is None:
+            return None
+        return True if a == b else None
+
+    def _element_of(self, a: Any, b: Any) -> bool:
+        """`a` is the value of an element expression over a (possibly filtered) repetition, `b` a list that holds the same
+        element expression for EVERY element of the same base: a is certainly in b."""
+        ctx = getattr(self, '_elem_ctx', {})
+        if isinstance(a, TStr) and len(a.parts) == 1 and isinstance(a.parts[0], Hole) and not a.parts[0].transform:
+            a = a.parts[0].sym
+        if not (isinstance(a, Sym) and isinstance(b, TList) and len(b.items) == 1 and isinstance(b.items[0], RepL)):
+            return False
+        rb = b.items[0]
+        if rb.src.filters or rb.src.order or len(rb.items) != 1:
+            return False
+        eb = rb.items[0]
+        if isinstance(eb, TStr) and len(eb.parts) == 1 and isinstance(eb.parts[0], Hole) and not eb.parts[0].transform:
+            eb = eb.parts[0].sym
+        if not isinstance(eb, Sym):
+            return False
+        src_a = ctx.get(a.root)
+        if src_a is None or repr(src_a.base) != repr(rb.src.base):
+            return False
+        return self.subst_val(eb, rb.src.var, src_a.var).key() == a.key()
 
     def cond_leaf(self, v: Any) -> Any:
         if isinstance(v, TStr):
@@ -1094,9 +1145,13 @@ class Evaluator:
         if isinstance(it, TList):
             # a list value (literal items, repetitions, alternatives): the comprehension maps / filters it element-wise,
             # a repetition stays a repetition over the same source (composition of maps)
-            def one(x, env_):
+            def one(x, env_, src_=None):
                 env2 = dict(env_)
                 self._assign(g.target, x, env2, fn, depth)
+                if src_ is not None and isinstance(x, Sym):
+                    if not hasattr(self, '_elem_ctx'):
+                        self._elem_ctx = {}
+                    self._elem_ctx[x.root] = src_
                 c = TRUE
                 if g.ifs:
                     c = self.cond(ast.BoolOp(op=ast.And(), values=list(g.ifs)) if len(g.ifs) > 1 else g.ifs[0], env2, fn, depth)
@@ -1107,7 +1162,7 @@ class Evaluator:
                 for x in items:
                     if isinstance(x, RepL):
                         if len(x.items) == 1 and not isinstance(x.items[0], (RepL, AltL)) and g.ifs:
-                            c, v = one(x.items[0], env)
+                            c, v = one(x.items[0], env, x.src)
                             if c == FALSE:
                                 continue
                             src2 = Src(x.src.base, x.src.var, list(x.src.filters) + ([] if c == TRUE else [c]), x.src.order)
@@ -1741,7 +1796,20 @@ class Evaluator:
         for nm, (_ann, dflt, owner) in prog.class_fields(cls).items():
             if nm not in fields:
                 fields[nm] = self.default_value(dflt, owner)
-        return TObj(cls, fields)
+        obj = TObj(cls, fields)
+        probe = getattr(self, 'probe_post_init', None)
+        if probe is not None and cls.fq in probe:
+            # under which conditions does __post_init__ raise for THIS construction? (C13: relational consistency checks)
+            post = prog.lookup_method(cls, '__post_init__')
+            if post is not None and depth < self.MAX_DEPTH:
+                saved = list(self.opaque_log)
+                self.probe_hits = getattr(self, 'probe_hits', 0) + 1
+                _falls, rets = self._block(post.node.body, {'self': obj}, post, depth + 1)
+                del self.opaque_log[len(saved):]
+                for c, v in rets:
+                    if isinstance(v, TRaise):
+                        probe[cls.fq].append(c)
+        return obj
 
     def default_value(self, dflt: Optional[ast.expr], owner: ClassInfo) -> Any:
         if dflt is None:
